@@ -1,11 +1,127 @@
-(* C12 — property theorems only. *)
-From Coq Require Import List NArith Bool.
-From Verif.Common Require Import Packet PolicyRef.
-From Verif.C12 Require Import Model Spec Proofs.
+(* C12 — property theorems only.  Each is closed by `exact <lemma>` and followed by Print Assumptions.
+
+   Reading guide.  One endpoint policy state = tiers (Model.ktier: enforced / staged policies with the rules of the
+   direction evaluated, default action Deny / Pass / unset), profiles, and the IP-set member table `tbl`.
+   `ref_verdict v tbl tiers profs p` is Common/PolicyRef.endpoint_verdict on it (Spec.v); `vd_of_ref` reads it as
+   allow / deny.  `chk_endpoint kv` is the model of app-policy/checker checkStore (Model.v) for the checker variant kv
+   (pinned_kvariant = the code as pinned, fixed_kvariant = with fixes/C12-checker-agree.patch; the driver probes
+   which one the tree is).  `state_in_fragment kv v tbl tiers profs` / `packet_in_fragment p` is the COMMON FRAGMENT
+   (Spec.v): no ICMP and no named-port match, no negated CIDR list of the other family, referenced sets / policies /
+   profiles present in the store, IP+port members tcp/udp, protocol 1..255; for the pinned variant also: no Pass
+   rule in a profile, tier default action set, no explicit ip_version, NET members of length <= w-8 or = w. *)
+From Coq Require Import List NArith Bool String.
+From Verif.Common Require Import Packet PolicyRef Ipt.
+From Verif.C08 Require Import Model Spec ProofsFilter.
+From Verif.C09 Require Import Model ProofsPolicy ProofsModel.
+From Verif.C09 Require Spec.
+From Verif.C11 Require Import Bpf Model.
+From Verif.C11 Require Spec ProofsMain ProofsFinal.
+From Verif.C12 Require Import Model Spec Proofs ProofsChecker ProofsAgree ProofsFinal.
 Import ListNotations.
 Open Scope N_scope.
+
+(* THE CHECKER REACHES THE REFERENCE VERDICT.  For either variant of the checker, every IP version, every store
+   contents, every layout of tiers / staged and enforced policies / default actions / profiles OF ANY SIZE inside the
+   common fragment and every packet with a protocol number 1..255: status OK iff the reference allows. *)
+Theorem c12_checker_verdict : forall kv v tbl tiers profs p,
+  state_in_fragment kv v tbl tiers profs = true -> packet_in_fragment p = true -> pk_ver p = v ->
+  chk_vd (chk_endpoint kv tbl tiers profs p) = vd_of_ref (ref_verdict v tbl tiers profs p).
+Proof. exact c12_checker_verdict_pf. Qed.
+Print Assumptions c12_checker_verdict.
+
+(* ALL FOUR AGREE.  The same state, read by
+     - the iptables renderer  (C09's model render_endpoint for a cfg ci of flavour iptables, any policy grouping mt_i
+       and chain names whose reference view `to_tier` is the state's), evaluated by Ipt.run_chain;
+     - the nftables renderer  (likewise, cn / mt_n);
+     - the BPF builder        (C11's IR model of the program built from bpf_rules = what extractTiers /
+       extractProfiles hand to polprog, for any protocol-name annotation nm / nnm), evaluated by the IR semantics;
+     - the checker            (chk_endpoint kv),
+   gives the same allow / deny verdict for every packet, namely the reference verdict.
+   Hypotheses inherited from C09 (ipt_hyps, per flavour): disjoint mark bits, normal (filter) workload/host chain,
+   admin up, no VXLAN/IPIP block hit by this packet, distinct chain names, per-rule rendering correctness rule_ok
+   (C08: holds for rules with <= 2 positive match blocks on the pinned tree, for all rules with
+   fixes/C08-scratch-bit.patch; c09_rule_ok_few_blocks / c09_rule_ok_fixed), no Pass rule in a profile unless the
+   tree has the profile-pass-mark fix, drop mark clear on entry, conntrack state NEW, addresses within the family's
+   width; the chain's IP-set oracle is the store's member table.
+   Hypotheses inherited from C11 (bpf_hyps): the LPM lookup of the program agrees with the member table
+   (c11_table_sets_agree gives it for homogeneous tables), valid_rules (at most one positive destination selector
+   set per rule, protocol names resolve by the IANA table), set ids typed. *)
+Theorem c12_agree : forall kv v tbl tiers profs p
+    ci ei eci name_i mt_i mp_i fi
+    cn en ecn name_n mt_n mp_n fn
+    kind bs nm nnm,
+  state_in_fragment kv v tbl tiers profs = true -> packet_in_fragment p = true -> pk_ver p = v ->
+  wf_packet p -> pk_ct p = CtNew ->
+  ipt_hyps ci ei eci v name_i mt_i mp_i tbl tiers profs p ->
+  ipt_hyps cn en ecn v name_n mt_n mp_n tbl tiers profs p ->
+  bpf_hyps v tbl kind bs (bpf_rules nm nnm tiers profs) p ->
+  let r := vd_of_ref (ref_verdict v tbl tiers profs p) in
+  ipt_vd ci (Ipt.run_chain (3 + fi) (render_endpoint eci ci v name_i mt_i mp_i) ei name_i p) = r
+  /\ ipt_vd cn (Ipt.run_chain (3 + fn) (render_endpoint ecn cn v name_n mt_n mp_n) en name_n p) = r
+  /\ bpf_model_vd v (bpf_rules nm nnm tiers profs) bs (pstate_of p) = r
+  /\ chk_vd (chk_endpoint kv tbl tiers profs p) = r.
+Proof. exact c12_agree_pf. Qed.
+Print Assumptions c12_agree.
+
+(* ... hence pairwise equal, the form of the property text *)
+Theorem c12_agree_pairwise : forall (a b c d r : vd), a = r /\ b = r /\ c = r /\ d = r -> a = b /\ b = c /\ c = d.
+Proof. exact c12_agree_pairwise_pf. Qed.
+Print Assumptions c12_agree_pairwise.
+
+(* the BPF dataplane's reading of the state (extractTiers: staged policies become empty slots, tiers without policies
+   are not handed over, staged-only tiers end in pass) has the reference verdict of the state itself *)
+Theorem c12_bpf_extract_preserves_verdict : forall v tbl nm nnm tiers profs p, pk_ver p = v ->
+  C11.Spec.ref_verdict (ref_sets v tbl) v (bpf_rules nm nnm tiers profs) (pstate_of p)
+  = match ref_verdict v tbl tiers profs p with VAllow => RAllow | _ => RDeny end.
+Proof. exact bpf_ref_verdict. Qed.
+Print Assumptions c12_bpf_extract_preserves_verdict.
+
+(* one rule: match.go's verdict on a rule of the fragment is PolicyRef.rule_matches *)
+Theorem c12_rule_match : forall kv v tbl r p,
+  store_in_fragment kv v tbl = true -> rule_in_fragment kv v tbl r = true ->
+  packet_in_fragment p = true -> pk_ver p = v ->
+  chk_match kv tbl r p = rule_matches (ref_sets v tbl) r p.
+Proof. exact rule_match_ref. Qed.
+Print Assumptions c12_rule_match.
 
 (* the oracle accepts exactly the situations in which all four verdicts are the reference verdict *)
 Theorem c12_oracle_sound : forall r a b c d, ok_agree r a b c d = true -> a = r /\ b = r /\ c = r /\ d = r.
 Proof. exact ok_agree_true. Qed.
 Print Assumptions c12_oracle_sound.
+
+(* THE CHECKER AS PINNED disagrees with the three dataplanes on states that the repaired checker handles (each
+   `refutes tbl tiers profs p want got`: the state is in the repaired checker's fragment, the reference verdict is
+   `want`, the pinned model's status is `got` whose allow/deny reading differs, the repaired model gives `want`).
+   Each witness is replayed on the real code by the driver's corpus cases (known findings). *)
+(* (1) a matching Pass rule of a profile denies instead of moving on to the next profile *)
+Theorem c12_profile_pass_pinned_refuted :
+  refutes [] [] [prof [any_rule Pass]; prof [allow_rule]] tcp_packet VdAllow RDenied.
+Proof. exact profile_pass_refuted_pf. Qed.
+Print Assumptions c12_profile_pass_pinned_refuted.
+
+(* (2) a tier without a default action: the first non-matching policy fails the evaluation (INVALID_ARGUMENT) *)
+Theorem c12_default_unset_pinned_refuted :
+  refutes [] [{| kt_policies := [pol [with_proto allow_rule 17]; pol [allow_rule]]; kt_default := KdUnset |}] [] tcp_packet
+          VdAllow RInvalid.
+Proof. exact default_unset_refuted_pf. Qed.
+Print Assumptions c12_default_unset_pinned_refuted.
+
+(* (3) Rule.ip_version is ignored: an IPv6-only allow rule allows an IPv4 packet *)
+Theorem c12_ipver_pinned_refuted :
+  refutes [] [] [prof [with_ipver allow_rule V6]] tcp_packet VdDeny ROk.
+Proof. exact ipver_refuted_pf. Qed.
+Print Assumptions c12_ipver_pinned_refuted.
+
+(* (4) a NET set member 10.0.0.0/25 is never found by the policystore trie *)
+Theorem c12_trie_pinned_refuted :
+  refutes [(1, [ECidr 167772160 25])] [] [prof [with_src_set allow_rule 1]] tcp_packet VdAllow RDenied.
+Proof. exact trie_refuted_pf. Qed.
+Print Assumptions c12_trie_pinned_refuted.
+
+(* the hypotheses of c12_checker_verdict are satisfiable by a non-trivial state of the PINNED fragment (two tiers, a
+   staged policy, a NET set, a profile) on which the verdict is allow *)
+Example c12_checker_verdict_hyps_satisfiable :
+  state_in_fragment pinned_kvariant V4 ex_tbl ex_tiers ex_profs = true /\ packet_in_fragment tcp_packet = true
+  /\ ref_verdict V4 ex_tbl ex_tiers ex_profs tcp_packet = VAllow
+  /\ chk_endpoint pinned_kvariant ex_tbl ex_tiers ex_profs tcp_packet = ROk.
+Proof. exact checker_hyps_satisfiable_pf. Qed.
